@@ -107,6 +107,10 @@ def gen_cases(tier, seed):
         for rat in (False, True):
             cases.append(dict(shape=A.shape_desc([ku, kv], [pu, pv], rat, 3, 'coded', 'coded'), sparse=True, tall=True,
                               parts=['derivs']))
+    # ---- data variety: coordinates, weights, knots, dimensions and input types outside the small-integer world
+    from .. import util_knots as K
+    for d in K.variety_shapes(tier, pdims=(1, 2)):
+        cases.append(dict(shape=d, variety=True, sparse=d['pdim'] == 2))
     # ---- surfaces
     degs = [1, 2, 3]
     for pu, pv in itertools.product(degs, degs):
@@ -255,6 +259,9 @@ def _setup(case, ctx):
                 psets.append(A.few_params(p, kv))
             else:
                 psets.append(A.params_for(p, kv, per_span=p + 1, extras=True))
+    # parameters are passed as floats, the documented type (knots given as ints would otherwise come back as int parameters,
+    # and tangent / normal tell a single (u, v) pair from a list of pairs by isinstance(params[0], float))
+    psets = [[float(u) for u in ps] for ps in psets]
     pts, w, _ = S.net_points(desc, seed)
     maxP = max(1.0, max(abs(c) for p_ in pts for c in p_))
     wr = (max(w) / min(w)) if desc['rational'] else 1.0
@@ -272,11 +279,15 @@ def _setup(case, ctx):
     ctx.state(dict(d=desc, s=seed if 'seeded' in (desc['net'], desc.get('weights')) else 0),
               nontrivial=A.is_nontrivial(desc))
 
-    def scale(ks):
-        s = maxP
+    rawP = max(abs(c) for p_ in pts for c in p_) or 1.0
+
+    def scale(ks, floor=True):
+        # floor=True: scale of the absolute tolerance; floor=False: natural size of the derivative for the data as they are
+        # (the decision 'this vector is degenerate' must not depend on the unit of length of the model)
+        s = maxP if floor else rawP
         for p, h, k in zip(degs, hmin, ks):
             s *= (p / h) ** k
-        return max(1.0, s * wr)
+        return max(1.0, s * wr) if floor else s * wr
     return obj, model, psets, scale, feats
 
 
@@ -394,7 +405,7 @@ def _curve_tangent(case, ctx, obj, params, E, pf, fe, ev, scale, dim):
         usable = []
         for u in params:
             exact = E[u][(1,)]
-            zero = _negligible(exact, F(DEGENERATE * scale((1,))))
+            zero = _negligible(exact, F(DEGENERATE * scale((1,), floor=False)))
             f = dict(pf[u], normalize=normalize, variant='single', degenerate=zero, **fe)
             rc = dict(case, params=[[u]], evaluators=[ev], parts=['tangent'])
             if normalize and zero:
@@ -553,8 +564,8 @@ def _surface_tangent(case, ctx, obj, plist, E, pf, fe, ev, scale, dim):
     for normalize in (False, True):
         usable = []
         for prm in plist:
-            zero = (_negligible(E[prm][(1, 0)], F(DEGENERATE * scale((1, 0))))
-                    or _negligible(E[prm][(0, 1)], F(DEGENERATE * scale((0, 1)))))
+            zero = (_negligible(E[prm][(1, 0)], F(DEGENERATE * scale((1, 0), floor=False)))
+                    or _negligible(E[prm][(0, 1)], F(DEGENERATE * scale((0, 1), floor=False))))
             f = dict(pf[prm], normalize=normalize, variant='single', degenerate=zero, **fe)
             rc = dict(case, params=[[prm[0]], [prm[1]]], evaluators=[ev], parts=['tangent'])
             if normalize and zero:
@@ -607,7 +618,7 @@ def _surface_normal(case, ctx, obj, plist, E, pf, fe, ev, scale, dim):
         usable = []
         for prm in plist:
             exact = _cross(E[prm][(1, 0)], E[prm][(0, 1)])
-            zero = _negligible(exact, F(DEGENERATE * scale((1, 0)) * scale((0, 1))))
+            zero = _negligible(exact, F(DEGENERATE * scale((1, 0), floor=False) * scale((0, 1), floor=False)))
             f = dict(pf[prm], normalize=normalize, variant='single', degenerate=zero, **fe)
             rc = dict(case, params=[[prm[0]], [prm[1]]], evaluators=[ev], parts=['normal'])
             if normalize and zero:
